@@ -42,11 +42,11 @@ def gen_skeleton(ch: Choices, flavour: str, opts: dict) -> dict:
     shr = []
     for i in range(nshr):
         if flavour == "bool":
-            k = ch.choose(4, "bool.dom")
+            k = ch.choose(4, f"d{i}.bool")
             shr.append([[0, 1], [0, 1], [0, 0], [1, 1]][k])
         else:
-            size = SIZES[ch.choose(len(SIZES), "dom.size")]
-            lo = LOWS[ch.choose(len(LOWS), "dom.lo")]
+            size = SIZES[ch.choose(len(SIZES), f"d{i}.size")]
+            lo = LOWS[ch.choose(len(LOWS), f"d{i}.lo")]
             if opts.get("nonneg"):
                 lo = abs(lo)
             shr.append([lo, lo + size - 1])
@@ -57,14 +57,14 @@ def gen_skeleton(ch: Choices, flavour: str, opts: dict) -> dict:
     idx = list(range(nshr))
     off = [0] * nshr
     extra = ch.choose(opts.get("max_extra", 3) + 1, "nextra")
-    for _ in range(extra):
+    for j in range(extra):
         if len(idx) >= opts.get("max_vars", 6):
             break
-        idx.append(ch.choose(nshr, "xv.dom"))
+        idx.append(ch.choose(nshr, f"x{j}.dom"))
         if flavour == "bool":
             off.append(0)
         else:
-            o = OFFS[ch.choose(len(OFFS), "xv.off")]
+            o = OFFS[ch.choose(len(OFFS), f"x{j}.off")]
             if opts.get("nonneg") and shr[idx[-1]][0] + o < 0:
                 o = 0
             off.append(o)
@@ -259,8 +259,9 @@ def gen_model(ch: Choices, opts: Optional[dict] = None) -> dict:
     tries = 0
     while len(model["props"]) < nprops and tries < 12:
         tries += 1
-        t = pool[ch.choose(len(pool), "type")]
-        c = gen_constraint(ch, model, t, opts)
+        with ch.scope(f"c{len(model['props'])}"):
+            t = pool[ch.choose(len(pool), "type")]
+            c = gen_constraint(ch, model, t, opts)
         if c is not None:
             model["props"].append(c)
     return model
